@@ -48,9 +48,9 @@ REQ = '_ZN3tao5pegtl12buffer_inputI7vreaderNS0_5ascii3eol7lf_crlfEPKcLm%dEE7requ
 # leaf rules run on buffer_input and on memory_input; ok = when std::overflow_error is a permitted outcome
 # (s0.c = bytes between buffer start and cursor when the rule starts, M_ = capacity)
 RULES = [
-    dict(name='any', cxx='any', need=1),
-    dict(name='one', cxx="one< 'a' >", need=1),
-    dict(name='range', cxx="range< 'a', 'c' >", need=1),
+    dict(name='any', cxx='any', need=1, single=True),
+    dict(name='one', cxx="one< 'a' >", need=1, single=True),
+    dict(name='range', cxx="range< 'a', 'c' >", need=1, single=True),
     dict(name='string', cxx="string< 'a', 'b', 'c' >", need=3),
     dict(name='istring', cxx="istring< 'a', 'b' >", need=2),
     dict(name='utf8_any', cxx='utf8::any', need=4),
@@ -61,12 +61,13 @@ RULES = [
     dict(name='rep_min_max', cxx="rep_min_max< 1, 3, one< 'a' > >", need=4),
     dict(name='must', cxx="seq< A1, must< B1 > >", need=2),
 ]
-RULES_THOROUGH = [
-    dict(name='until', cxx="until< one< 'b' > >", ok='(s0.c+first_b(s0.byte)+1>M_)'),
-    # a grammar that discards where nothing can backtrack: arbitrarily long input through a small buffer
-    dict(name='discard_loop', cxx='until< eof, seq< any, discard > >', ok='((s0.occ==0&&s0.c+1>M_)||maximum_==0)', cxxflags=['C07_NO_TOP_ACTION'],
-         flags=['C07_NEVER_FAILS']),
-    dict(name='discard_must', cxx="seq< A1, discard, must< B1 > >", ok='((s0.occ==0&&s0.c+1>M_)||maximum_==0)', cxxflags=['C07_NO_TOP_ACTION']),
+RULE_UNTIL = dict(name='until', cxx="until< one< 'b' > >", ok='(s0.c+first_b(s0.byte)+1>M_)')
+# grammars that discard where nothing can backtrack (top-level rewind_mode::optional as in tao::pegtl::parse(), no action with input above the discard):
+# arbitrarily long input through a small buffer; overflow only if the very first request does not fit or maximum = 0 (documented: eof needs a free byte)
+DISCARD_OK = '((s0.occ==0&&s0.c+1>M_)||maximum_==0)'
+RULES_DISCARD = [
+    dict(name='discard_loop', cxx='until< eof, seq< any, discard > >', ok=DISCARD_OK, cxxflags=['C07_NO_TOP_ACTION', 'C07_REWIND=optional'], flags=['C07_NEVER_FAILS'], single=True),
+    dict(name='discard_must', cxx="seq< A1, discard, must< B1 > >", ok=DISCARD_OK, cxxflags=['C07_NO_TOP_ACTION', 'C07_REWIND=optional'], single=True),
 ]
 
 
@@ -77,41 +78,44 @@ def plan(ctx):
     h = os.path.join(vf.VERIF, 'harness', 'c07.c')
     kf = {k.get('id'): k for k in vf.load_known('C07')}
     d9 = 'D9' if kf.get('D9', {}).get('status') == 'known' else None
+    short = ({'NSETUP': 3, 'SETUP_SHAPE': '{0,1,3}', 'SETUP_ONE_READ': 1}, 'require(a1); bump(k1); discard() or bump(k2)')
+    long_ = ({'NSETUP': 5, 'SETUP_SHAPE': '{0,1,3,0,1}', 'SETUP_ONE_READ': 1}, 'require(a1); bump(k1); discard() or bump(k2); require(a3); bump(k3)')
     if quick:
-        shape = {'NSETUP': 3, 'SETUP_SHAPE': '{0,1,3}', 'SETUP_ONE_READ': 1}
-        shape_txt = 'require(a1); bump(k1); discard() or bump(k2)'
-        op_cfgs = [(2, 2, OPS), (2, 3, ('discard',)), (1, 2, ('require', 'empty', 'rewind')), (1, 3, ('discard',)), (4, 2, ('require', 'discard'))]
-        rule_cfgs = [(2, 2, RULES)]
+        op_cfgs = [(2, 2, OPS, short), (2, 3, ('discard',), short), (1, 2, ('require', 'empty', 'rewind'), short), (1, 3, ('discard',), short), (4, 2, ('require', 'discard'), short)]
+        rule_cfgs = [(2, 2, RULES, short)]
     else:
-        shape = {'NSETUP': 5, 'SETUP_SHAPE': '{0,1,3,0,1}', 'SETUP_ONE_READ': 1}
-        shape_txt = 'require(a1); bump(k1); discard() or bump(k2); require(a3); bump(k3)'
-        op_cfgs = [(c, m, OPS) for c in (1, 2) for m in (0, 1, 2, 3, 4)] + [(4, m, OPS) for m in (0, 1, 2, 3)]
-        rule_cfgs = [(2, 2, RULES + RULES_THOROUGH), (1, 3, RULES + RULES_THOROUGH), (4, 1, RULES), (2, 0, RULES[:1] + RULES[6:7])]
+        op_cfgs = ([(1, m, OPS, short) for m in (2, 3, 4)] + [(2, m, OPS, short) for m in (1, 2, 3)] + [(4, m, OPS, short) for m in (0, 1, 2)] +
+                   [(4, 3, ('discard',), short), (1, 2, ('require', 'discard', 'rewind'), long_), (2, 2, ('require', 'discard', 'rewind'), long_)])
+        rule_cfgs = [(2, 2, RULES + [RULE_UNTIL], short), (1, 3, RULES, short), (4, 1, RULES, short), (2, 0, RULES[:1] + RULES[6:7], short), (1, 2, RULES_DISCARD, short), (2, 1, RULES_DISCARD, short)]
 
-    def common(chunk, mx):
+    def common(chunk, mx, sh):
+        shape, shape_txt = sh
         cap = mx + chunk
         lmax = cap + 1
         return cap, lmax, dict(shape, CHUNK=chunk, LMAX=lmax, MAXMAX=mx), {'Chunk': chunk, 'maximum': mx, 'capacity': cap, 'stream_bytes': lmax, 'amounts': '0..%d' % (cap + 1),
                                                                           'setup': shape_txt, 'reader': 'any 1..min(request, rest) bytes per call, 0 only at the end'}
 
-    for chunk, mx, ops in op_cfgs:
+    for chunk, mx, ops, sh in op_cfgs:
         unit = ctx.unit('c07_ops_c%d' % chunk, cpp=cpp, cxxflags=['-DCHUNK=%d' % chunk])
-        cap, lmax, d, b = common(chunk, mx)
+        cap, lmax, d, b = common(chunk, mx, sh)
+        tag = '/long' if sh is long_ else ''
         for op in ops:
-            kw = dict(defines=d, cbmc_defines={'VF_SPLIT': 1, 'C07_OP': OPS.index(op), 'MAXIMUM': mx}, unwind=lmax + 2, unwindset=[(REQ % chunk) + ':%d' % (cap + 1)],
+            kw = dict(defines=d, cbmc_defines={'VF_SPLIT': 1, 'C07_OP': OPS.index(op), 'MAXIMUM': mx}, unwind=max(lmax + 2, 8), unwindset=[(REQ % chunk) + ':%d' % (cap + 1)],
                       mem_gb=3, bounds=dict(b, operation=op))
-            qs.append(vf.Query('op/chunk%d/max%d/%s' % (chunk, mx, op), unit, h, known=d9, note='contract of buffer_input::%s from an arbitrary valid state' % op, **kw))
+            qs.append(vf.Query('op/chunk%d/max%d/%s%s' % (chunk, mx, op, tag), unit, h, known=d9, note='contract of buffer_input::%s from an arbitrary valid state' % op, **kw))
             if d9 and op == 'require' and (chunk, mx) == (2, 2):
                 qs.append(vf.Query('known/D9/require', unit, h, expect_fail='D9', note='confirmation of D9: one reader call per require()', **kw))
-    for chunk, mx, rules in rule_cfgs:
-        cap, lmax, d0, b = common(chunk, mx)
+    for chunk, mx, rules, sh in rule_cfgs:
+        cap, lmax, d0, b = common(chunk, mx, sh)
         for r in rules:
             unit = ctx.unit('c07_rule_%s_c%d' % (r['name'], chunk), cpp=cpp, cxxflags=['-DCHUNK=%d' % chunk, '-DC07_RULE=' + r['cxx']] + ['-D' + f for f in r.get('cxxflags', [])])
             d = dict(d0, C07_RULE_MODE=1, C07_OVERFLOW_OK=r.get('ok') or '(s0.c+%d>M_)' % r['need'])
             for f in r.get('flags', []):
                 d[f] = 1
+            if chunk == 1 and r.get('single'):
+                d['C07_NO_SHORT'] = 1      # the rule asks for one byte at a time and Chunk = 1: the reader is never asked for more than one byte
             heavy = r['name'] in ('utf8_any', 'discard_loop', 'until')
-            qs.append(vf.Query('rule/chunk%d/max%d/%s' % (chunk, mx, r['name']), unit, h, defines=d, cbmc_defines={'MAXIMUM': mx}, unwind=lmax + 2,
+            qs.append(vf.Query('rule/chunk%d/max%d/%s' % (chunk, mx, r['name']), unit, h, defines=d, cbmc_defines={'MAXIMUM': mx}, unwind=max(lmax + 2, 8),
                                unwindset=[(REQ % chunk) + ':%d' % (cap + 1)], mem_gb=4 if heavy else 3, known=d9, bounds=dict(b, rule=r['cxx'], overflow_permitted_if=d['C07_OVERFLOW_OK']),
                                note='%s on buffer_input (arbitrary valid state, short reads) vs memory_input over the rest of the stream' % r['cxx']))
     unit = ctx.unit('c07_thin', cpp=os.path.join(vf.VERIF, 'harness', 'c07_thin.cpp'))
